@@ -552,6 +552,11 @@ func (k Keeper) ForceValidatorUnstake(ctx sdk.Ctx, validator types.Validator) sd
 	// send validator to jail || if already jailed, do nothing
 	k.JailValidator(ctx, validator.Address)
 	ctx.Logger().Info("Sent Validator to Jail for falling below minimum stake" + validator.Address.String())
+	// only a staked node waits to begin unstaking: an entry written for a node that is already
+	// unstaking outlives its record and would unstake the next stake of the same key
+	if !validator.IsStaked() {
+		return nil
+	}
 	k.SetWaitingValidator(ctx, validator)
 	ctx.Logger().Info("Validator is waiting to begin unstaking" + validator.Address.String())
 	ctx.Logger().Info("" + validator.Address.String())
@@ -665,7 +670,7 @@ func (k Keeper) ValidateUnjailMessage(ctx sdk.Ctx, msg types.MsgUnjail) (addr sd
 		return nil, types.ErrMissingSelfDelegation(k.Codespace())
 	}
 	if validator.GetTokens().LT(sdk.NewInt(k.MinimumStake(ctx))) {
-		if k.Cdc.IsAfterNonCustodialUpgrade(ctx.BlockHeight()) {
+		if k.Cdc.IsAfterNonCustodialUpgrade(ctx.BlockHeight()) && validator.IsStaked() {
 			k.SetWaitingValidator(ctx, validator) // defensive against 'stuck in jail'
 		}
 		return nil, types.ErrSelfDelegationTooLowToUnjail(k.Codespace())
